@@ -22,6 +22,7 @@ which code objects to trace.
 """
 import sys
 import threading
+import _thread
 
 
 class SchedAbort(BaseException):
@@ -36,20 +37,72 @@ class Nondeterminism(Exception):
     """replaying a schedule prefix did not reproduce the recorded choice points"""
 
 
+_IDLE_WORKERS = []
+
+
+class _Worker:
+    """a reusable OS thread: logical threads of successive executions run on pooled workers"""
+
+    def __init__(self):
+        self.inbox = _thread.allocate_lock()
+        self.inbox.acquire()
+        self.job = None
+        _thread.start_new_thread(self._loop, ())
+
+    def _loop(self):
+        while True:
+            self.inbox.acquire()
+            job, self.job = self.job, None
+            try:
+                job()
+            except BaseException:  # noqa - `Scheduler._body` reports everything itself
+                pass
+            _IDLE_WORKERS.append(self)
+
+
+def _start_worker(job):
+    try:
+        w = _IDLE_WORKERS.pop()
+    except IndexError:
+        w = _Worker()
+    w.job = job
+    w.inbox.release()
+
+
+class RunResult:
+    """what one driven execution observed: `schedule` (tid per step), `deadlock` (no thread enabled while some
+    thread had not finished), `pruned` (exploration stopped this execution early), `truncated` (step limit)"""
+
+    def __init__(self):
+        self.schedule = []
+        self.deadlock = False
+        self.pruned = False
+        self.truncated = False
+        self.choice_points = 0
+        self.preemptions = 0
+
+
 class Scheduler:
-    def __init__(self, targets=(), step_timeout=30.0):
+    def __init__(self, targets=(), skip=None, step_timeout=30.0):
         self.targets = set(targets)          # code objects whose lines are scheduling points
-        self.cv = threading.Condition()
-        self.turn = None                     # tid allowed to run; None = the driver's turn
+        self.skip = skip                     # skip(code, lineno) -> True: that line is NOT a scheduling point
+        self.gate = {}                       # tid -> Lock the parked thread waits on
+        self.mgate = threading.Lock()        # the driving (main) thread waits on this while threads run
+        self.mgate.acquire()
         self.state = {}                      # tid -> ("line", name, lineno) | ("yield", label) | ("blocked", label, pred, deadline) | ("start",) | ("done",) | ("raised", exc)
         self.threads = {}
         self.order = []                      # tids in spawn order
         self.acted = {}                      # tid -> shared actions performed since the thread was last resumed
+        self.touched = {}                    # tid -> labels of the shared objects touched since it was last resumed
         self.steps = 0
         self.now = 0.0                       # virtual clock
         self.aborting = False
         self.step_timeout = step_timeout
-        self.last_step_actions = 0           # shared actions performed by the step that ran last
+        self.last = None                     # (tid, shared actions performed, labels touched) of the step that ended last
+        self.max_steps = 100000
+        self._choose = None
+        self._res = None
+        self._fatal = None
         self._local = threading.local()
 
     # ------------------------------------------------------------------ thread side
@@ -57,17 +110,46 @@ class Scheduler:
         """tid of the calling scheduled thread, or None when called from an unscheduled thread"""
         return getattr(self._local, "tid", None)
 
+    def _next(self):
+        """pick the thread that runs next (executed by whichever thread holds the baton); None = back to main"""
+        if self._choose is None or self.aborting:
+            return None
+        res = self._res
+        while True:
+            if self.all_finished():
+                return None
+            en = self.enabled()
+            if not en:
+                if self.advance():
+                    continue
+                res.deadlock = True
+                return None
+            if len(res.schedule) >= self.max_steps:
+                res.truncated = True
+                return None
+            try:
+                tid = self._choose(en)
+            except BaseException as ex:  # noqa - a bug in the exploration, reported by run()
+                self._fatal = ex
+                return None
+            if tid is None:
+                return None
+            res.schedule.append(tid)
+            self.steps += 1
+            return tid
+
     def _park(self, st):
         tid = self._local.tid
-        with self.cv:
-            self.state[tid] = st
-            self.turn = None
-            self.cv.notify_all()
-            while self.turn != tid:
-                self.cv.wait()
-            self.acted[tid] = 0
-            if self.aborting:
-                raise SchedAbort()
+        self.last = (tid, self.acted[tid], self.touched[tid])
+        self.state[tid] = st
+        nxt = self._next()
+        if nxt != tid:
+            (self.gate[nxt] if nxt is not None else self.mgate).release()   # hand the baton over
+            self.gate[tid].acquire()                                         # and wait to be granted a step
+        self.acted[tid] = 0
+        self.touched[tid] = []
+        if self.aborting:
+            raise SchedAbort()
 
     def yield_point(self, label="yield"):
         """unconditional scheduling point"""
@@ -84,10 +166,17 @@ class Scheduler:
         if self.acted[tid] > 0:
             self._park(("yield", label))
         self.acted[tid] += 1
+        self.touched[tid].append(label)
+
+    def touch(self, label):
+        """record (without a scheduling point) that the running thread touches the shared object `label`"""
+        tid = self.current()
+        if tid is not None:
+            self.touched[tid].append(label)
 
     def block_until(self, pred, label="blocked", deadline=None):
-        """park until the driver resumes this thread; the driver considers it enabled only while `pred()`
-        holds or the virtual clock has reached `deadline`.  Returns True iff `pred()` held on resumption."""
+        """park until resumed; the thread counts as enabled only while `pred()` holds or the virtual clock has
+        reached `deadline`.  Returns True iff `pred()` held on resumption."""
         if self.current() is None:
             raise RuntimeError("block_until outside a scheduled thread")
         if self.aborting:
@@ -102,7 +191,8 @@ class Scheduler:
 
     def _local_trace(self, frame, event, arg):
         if event == "line" and not self.aborting:
-            self._park(("line", frame.f_code.co_name, frame.f_lineno))
+            if self.skip is None or not self.skip(frame.f_code, frame.f_lineno):
+                self._park(("line", frame.f_code.co_name, frame.f_lineno))
         return self._local_trace
 
     def _body(self, tid, fn, args):
@@ -119,34 +209,37 @@ class Scheduler:
             final = ("done",)
         except BaseException as ex:  # noqa - reported to the driver
             final = ("raised", ex)
-        with self.cv:
-            self.state[tid] = final
-            self.turn = None
-            self.cv.notify_all()
+        self.last = (tid, self.acted[tid], self.touched[tid])
+        self.state[tid] = final
+        nxt = self._next()
+        (self.gate[nxt] if nxt is not None else self.mgate).release()
 
     # ------------------------------------------------------------------ driver side
     def spawn(self, tid, fn, *args):
         """create logical thread `tid` running fn(*args); it parks before its first instruction"""
-        th = threading.Thread(target=self._body, args=(tid, fn, args), daemon=True)
-        self.threads[tid] = th
         self.order.append(tid)
         self.acted[tid] = 0
-        with self.cv:
-            self.state[tid] = ("new",)
-            self.turn = tid
-            th.start()
-            self._wait_for_driver_turn(tid)
+        self.touched[tid] = []
+        self.gate[tid] = threading.Lock()
+        self.gate[tid].acquire()
+        self.state[tid] = ("new",)
+        # pooled bare OS threads: thousands of executions are started per second, and creating a
+        # `threading.Thread` costs more than a whole short execution
+        _start_worker(lambda: self._body(tid, fn, args))
+        self._wait_main(tid)
 
-    def _wait_for_driver_turn(self, tid):
-        while self.turn is not None:
-            if not self.cv.wait(self.step_timeout):
-                raise SchedulerHang("thread %r did not return to the scheduler (state %r)" % (tid, self.state.get(tid)))
+    def _wait_main(self, tid=None):
+        if not self.mgate.acquire(timeout=self.step_timeout):
+            raise SchedulerHang("thread %r did not return to the scheduler (states %r)" % (tid, self.state))
 
     def finished(self, tid):
         return self.state[tid][0] in ("done", "raised")
 
     def all_finished(self):
-        return all(self.finished(t) for t in self.order)
+        for t in self.order:
+            if self.state[t][0] not in ("done", "raised"):
+                return False
+        return True
 
     def is_enabled(self, tid):
         st = self.state[tid]
@@ -162,16 +255,25 @@ class Scheduler:
     def where(self, tid):
         return self.state[tid]
 
+    def run(self, choose, max_steps=100000):
+        """drive the threads: `choose(enabled) -> tid` is asked before every step (return None to stop).
+        Ends when every thread has finished, no thread is enabled (deadlock), or `choose` stops."""
+        self._choose, self._res, self._fatal, self.max_steps = choose, RunResult(), None, max_steps
+        nxt = self._next()
+        if nxt is not None:
+            self.gate[nxt].release()
+            self._wait_main(nxt)
+        self._choose = None
+        if self._fatal is not None:
+            raise self._fatal
+        return self._res
+
     def step(self, tid):
         """let thread `tid` run until it parks again, blocks or finishes"""
         if not self.is_enabled(tid):
             raise RuntimeError("thread %r is not enabled (%r)" % (tid, self.state[tid]))
-        with self.cv:
-            self.turn = tid
-            self.cv.notify_all()
-            self._wait_for_driver_turn(tid)
-        self.steps += 1
-        self.last_step_actions = self.acted[tid]
+        todo = [tid]
+        self.run(lambda en: todo.pop() if todo else None)
 
     def advance(self):
         """no thread enabled: move the virtual clock to the earliest deadline of a blocked thread"""
@@ -188,58 +290,71 @@ class Scheduler:
     def close(self):
         """tear the run down: unwind every thread that has not finished"""
         self.aborting = True
+        self._choose = None
         for tid in self.order:
             if not self.finished(tid) and self.state[tid][0] != "new":
-                with self.cv:
-                    self.turn = tid
-                    self.cv.notify_all()
-                    try:
-                        self._wait_for_driver_turn(tid)
-                    except SchedulerHang:
-                        self.turn = None
-        for th in self.threads.values():
-            th.join(1.0)
+                self.gate[tid].release()
+                try:
+                    self._wait_main(tid)
+                except SchedulerHang:
+                    pass
 
 
 class SchedLock:
-    """stand-in for `threading.Lock` (one bit, no owner, not re-entrant) whose blocking is a scheduler
+    """stand-in for `threading.Lock` (one bit, no owner, not re-entrant) — or, with `reentrant=True`, for
+    `threading.RLock` (owner = the scheduled OS-level thread, with a count) — whose blocking is a scheduler
     state.  `on_event(kind, result)` is called for every operation: kinds `try` (non-blocking acquire, with
     its result), `block` (a blocking acquire was requested), `acquired` (a blocking acquire was granted or
-    timed out, with its result), `release`."""
+    timed out, with its result), `release` (with False if the lock was not held)."""
 
-    def __init__(self, sched, on_event=None, name="lock"):
+    def __init__(self, sched, on_event=None, name="lock", reentrant=False):
         self.sched = sched
         self.held = False
         self.name = name
+        self.reentrant = reentrant
+        self.owner = None
+        self.count = 0
         self.on_event = on_event or (lambda kind, result: None)
+
+    def _free_for_me(self):
+        return not self.held or (self.reentrant and self.owner == self.sched.current())
+
+    def _take(self):
+        self.held = True
+        self.owner = self.sched.current()
+        self.count += 1
 
     def acquire(self, blocking=True, timeout=-1):
         self.sched.before_action(self.name + ".acquire")
         if not blocking:
-            ok = not self.held
+            ok = self._free_for_me()
             if ok:
-                self.held = True
+                self._take()
             self.on_event("try", ok)
             return ok
         self.on_event("block", None)
         deadline = None if timeout is None or timeout < 0 else self.sched.now + timeout
-        while self.held:
+        while not self._free_for_me():
             if self.sched.current() is None:
                 raise RuntimeError("blocking acquire of a held SchedLock outside a scheduled thread")
-            if not self.sched.block_until(lambda: not self.held, self.name, deadline):
+            if not self.sched.block_until(self._free_for_me, self.name, deadline):
                 if deadline is not None and self.sched.now >= deadline:
                     self.on_event("acquired", False)
                     return False
-        self.held = True
+        self._take()
         self.on_event("acquired", True)
         return True
 
     def release(self):
         self.sched.before_action(self.name + ".release")
-        if not self.held:
+        if not self.held or (self.reentrant and self.owner != self.sched.current()):
             self.on_event("release", False)
             raise RuntimeError("release unlocked lock")
-        self.held = False
+        self.count -= 1
+        if not self.reentrant or self.count == 0:
+            self.held = False
+            self.owner = None
+            self.count = 0
         self.on_event("release", True)
 
     def locked(self):
@@ -305,37 +420,6 @@ class SchedCondition:
 
 
 # ---------------------------------------------------------------------------------------------- exploration
-class RunResult:
-    """what a driver loop observed: `schedule` (tid per step), `deadlock` (no thread enabled while some thread
-    had not finished), `choice_points` (number of steps at which more than one option was explored)"""
-
-    def __init__(self):
-        self.schedule = []
-        self.deadlock = False
-        self.choice_points = 0
-        self.preemptions = 0
-        self.truncated = False
-
-
-def _drive(sched, choose, max_steps):
-    """generic driver loop; choose(enabled) -> tid"""
-    res = RunResult()
-    while not sched.all_finished():
-        en = sched.enabled()
-        if not en:
-            if sched.advance():
-                continue
-            res.deadlock = True
-            break
-        if len(res.schedule) >= max_steps:
-            res.truncated = True
-            break
-        tid = choose(en)
-        sched.step(tid)
-        res.schedule.append(tid)
-    return res
-
-
 def run_fixed(sched, schedule, max_steps=100000):
     """follow `schedule` as far as it is feasible (a listed thread that is not enabled is skipped), then
     continue with the first enabled thread"""
@@ -346,7 +430,7 @@ def run_fixed(sched, schedule, max_steps=100000):
             if tid in en:
                 return tid
         return en[0]
-    return _drive(sched, choose, max_steps)
+    return sched.run(choose, max_steps)
 
 
 def run_random(sched, rng, stickiness=0, max_steps=100000):
@@ -359,85 +443,102 @@ def run_random(sched, rng, stickiness=0, max_steps=100000):
             return last[0]
         last[0] = en[rng.below(len(en))]
         return last[0]
-    return _drive(sched, choose, max_steps)
+    return sched.run(choose, max_steps)
 
 
-def dfs(new_run, is_local=None, preemption_bound=None, max_runs=None, max_steps=100000):
-    """Enumerate schedules depth-first.  `new_run()` builds a fresh system and returns an object with a
-    `.sched` attribute (threads spawned, nothing stepped); it is called once per explored schedule and the
-    recorded prefix is replayed on it.  Yields `(run, result)` after each complete execution; the caller
-    must `run.sched.close()`.
+def independent(a, b):
+    """access sets (frozensets of (object, 'r'|'w'), None = unknown): no object in common that either writes"""
+    if a is None or b is None:
+        return False
+    for (obj, mode) in a:
+        for (obj2, mode2) in b:
+            if obj == obj2 and (mode == "w" or mode2 == "w"):
+                return False
+    return True
 
-    is_local(run, tid) -> True if the NEXT step of the parked thread `tid` is known to touch no shared state.
-    Such a step commutes with every step of every other thread, so when one exists it alone is explored at
-    that point (partial-order reduction; the caller should verify afterwards that the step really performed
-    no shared action).  preemption_bound: explore only schedules with at most that many switches away from
-    a thread that could have continued.
+
+def dfs(new_run, access=None, preemption_bound=None, max_runs=None, max_steps=100000):
+    """Enumerate schedules depth-first (stateless: every schedule is a fresh execution that replays the
+    recorded prefix).  `new_run()` builds a fresh system and returns an object with a `.sched` attribute
+    (threads spawned, nothing stepped).  Yields `(run, result)` after each execution; the caller closes
+    `run.sched`.  Executions with `result.pruned` were cut short by the reduction (their schedule is a real
+    prefix, not a complete execution).
+
+    access(run, tid) -> frozenset of (object, 'r'|'w') the NEXT step of parked thread `tid` may touch, or None
+    if unknown.  Used for a sound partial-order reduction: a step with an empty access set commutes with
+    everything, so it alone is explored where one exists; otherwise sleep sets keep a thread whose pending
+    step was already explored from this state asleep until a dependent step has run, so that of the
+    executions that differ only in the order of independent steps exactly one is completed.
+    preemption_bound: explore only schedules with at most that many switches away from a thread that could
+    have continued (a heuristic subset when combined with sleep sets).
     """
-    stack = []          # frames: [options, index, last_before, preemptions_before, forced]
+    stack = []          # frames: dict(en, opts, idx, sleep, last, preempt, forced)
     runs = 0
     while True:
         run = new_run()
         sched = run.sched
-        res = RunResult()
-        depth = 0
-        last = None
-        preempt = 0
-        while not sched.all_finished():
-            en = sched.enabled()
-            if not en:
-                if sched.advance():
-                    continue
-                res.deadlock = True
-                break
-            if depth >= max_steps:
-                res.truncated = True
-                break
+        cur = dict(depth=0, last=None, preempt=0, sleep=frozenset(), choice_points=0, pruned=False)
+
+        def choose(en, run=run, cur=cur):
+            depth = cur["depth"]
             if depth < len(stack):
                 frame = stack[depth]
-                if frame[0] != _options(run, en, is_local, last, preempt, preemption_bound)[0]:
-                    sched.close()
-                    raise Nondeterminism("choice point %d: recorded %r, now %r" % (depth, frame[0], en))
+                if frame["en"] != en:
+                    raise Nondeterminism("choice point %d: recorded %r, now %r" % (depth, frame["en"], en))
             else:
-                opts, forced = _options(run, en, is_local, last, preempt, preemption_bound)
-                frame = [opts, 0, last, preempt, forced]
+                acc = dict((t, access(run, t)) for t in en) if access is not None else {}
+                opts, forced = _options(en, acc, cur["sleep"], cur["last"], cur["preempt"], preemption_bound)
+                if not opts:
+                    cur["pruned"] = True          # every enabled thread is asleep: an equivalent execution exists
+                    return None
+                frame = dict(en=list(en), opts=opts, idx=0, sleep=cur["sleep"], acc=acc, forced=forced)
                 stack.append(frame)
-            tid = frame[0][frame[1]]
-            if len(frame[0]) > 1:
-                res.choice_points += 1
-            if not frame[4]:
-                if last is not None and tid != last and last in en:
-                    preempt += 1
-                last = tid
-            sched.step(tid)
-            res.schedule.append(tid)
-            depth += 1
-        res.preemptions = preempt
-        del stack[depth:]
+            tid = frame["opts"][frame["idx"]]
+            if len(frame["opts"]) > 1:
+                cur["choice_points"] += 1
+            if access is not None:
+                asleep = set(frame["sleep"]) | set(frame["opts"][:frame["idx"]])
+                a = frame["acc"].get(tid)
+                cur["sleep"] = frozenset(u for u in asleep if u != tid and u in frame["acc"]
+                                         and independent(frame["acc"][u], a))
+            if not frame["forced"]:
+                if cur["last"] is not None and tid != cur["last"] and cur["last"] in en:
+                    cur["preempt"] += 1
+                cur["last"] = tid
+            cur["depth"] = depth + 1
+            return tid
+
+        try:
+            res = sched.run(choose, max_steps)
+        except BaseException:
+            sched.close()
+            raise
+        res.pruned = cur["pruned"]
+        res.choice_points = cur["choice_points"]
+        res.preemptions = cur["preempt"]
+        del stack[cur["depth"]:]
         yield run, res
         runs += 1
         if max_runs is not None and runs >= max_runs:
             return
-        while stack and stack[-1][1] + 1 >= len(stack[-1][0]):
+        while stack and stack[-1]["idx"] + 1 >= len(stack[-1]["opts"]):
             stack.pop()
         if not stack:
             return
-        stack[-1][1] += 1
+        stack[-1]["idx"] += 1
 
 
-def _options(run, en, is_local, last, preempt, bound):
+def _options(en, acc, sleep, last, preempt, bound):
     """(ordered options at this point, forced?)"""
-    if is_local is not None:
-        if last in en and is_local(run, last):
-            return [last], True
-        for tid in en:
-            if is_local(run, tid):
-                return [tid], True
+    awake = [t for t in en if t not in sleep]
+    for tid in ([last] if last in awake else []) + awake:
+        if tid in acc and acc[tid] is not None and len(acc[tid]) == 0:
+            return [tid], True
     if bound is not None and preempt >= bound and last in en:
-        return [last], False
-    if last in en:
-        return [last] + [t for t in en if t != last], False
-    return list(en), False
+        return ([last] if last in awake else []), False
+    if last in awake:
+        return [last] + [t for t in awake if t != last], False
+    return awake, False
 
 
 # ---------------------------------------------------------------------------------------------- self test
